@@ -49,6 +49,9 @@ EXHAUSTIVE = {
 }
 
 
+INT31 = 2 ** 31 - 1
+
+
 def oracle_basis(d: int, c: int) -> list[tuple[int, ...]]:
     vecs = [k for k in itertools.product(range(c), repeat=d) if sum(k) < c]
     vecs.sort(key=lambda k: (sum(k), tuple(-x for x in k)))
@@ -289,8 +292,41 @@ def prop_grid(case, ctx):
         prop_fermionic(case, ctx)
 
 
+def max_total_in_range(d):
+    """largest n with C(n+d, d) <= 2**31-1 (the whole basis up to that sector is
+    addressable with the documented 32-bit indices)"""
+    lo, hi = 0, 2 ** 31
+    while lo < hi:
+        mid = (lo + hi + 1) // 2
+        if mcomb(mid + d, d) <= INT31:
+            lo = mid
+        else:
+            hi = mid - 1
+    return lo
+
+
 @st.composite
 def big_vectors(draw):
+    regime = draw(st.sampled_from(["moderate", "moderate", "deep", "deep", "long"]))
+    if regime == "deep":
+        # few modes, as many photons as the 32-bit index range allows (n ~ 65000 for d=2,
+        # ~2300 for d=3, ~90 for d=6)
+        d = draw(st.integers(1, 6))
+        nmax = min(max_total_in_range(d), 70000)
+        total = draw(st.one_of(st.integers(0, nmax), st.integers(max(0, nmax - 50), nmax)))
+        cuts = sorted(draw(st.lists(st.integers(0, total), min_size=d - 1, max_size=d - 1)))
+        k = [b - a for a, b in zip([0] + cuts, cuts + [total])]
+        return k
+    if regime == "long":
+        # many modes, few photons (d + n beyond 62, where 64-bit binomials get tight)
+        d = draw(st.integers(31, 90))
+        total = draw(st.integers(0, 3))
+        while mcomb(total + d, d) > INT31:
+            total -= 1
+        k = [0] * d
+        for _ in range(total):
+            k[draw(st.integers(0, d - 1))] += 1
+        return k
     d = draw(st.integers(1, 30))
     total = draw(st.integers(0, 40))
     style = draw(st.sampled_from(["spread", "few", "front", "back"]))
@@ -308,16 +344,15 @@ def big_vectors(draw):
     return k
 
 
-INT31 = 2 ** 31 - 1
-
-
 def prop_random(case, ctx):
     k = tuple(int(x) for x in case)
     d, n = len(k), sum(k)
     true = oracle_rank(k)
     in_range = mcomb(n + d, d) <= INT31  # whole space up to this sector fits int32
-    ctx.case(["rand", list(k)], nontrivial=(d >= 3 and n >= 3 and in_range),
-             classes=["random_in_range" if in_range else "random_out_of_range"])
+    regime = "deep" if (d <= 6 and n > 40) else ("long" if d > 30 else "moderate")
+    ctx.case(["rand", list(k)], nontrivial=((d >= 3 and n >= 3) or regime != "moderate") and in_range,
+             classes=["random_in_range" if in_range else "random_out_of_range",
+                      f"random_{regime}"])
     fq = pind.to_first_quantized(np.array(k, dtype=np.int64))
     sq = pind.to_second_quantized(fq, d)
     if tuple(int(x) for x in sq) != k:
